@@ -262,12 +262,22 @@ func forkBatch(prop string, seed uint64, from, n int, tier, out string, budget f
 
 // ---- replay ---------------------------------------------------------------------------
 
+// Prefix names worlds to be executed first, in the same process, because the
+// finding depends on process-wide state that earlier worlds left behind.
+type Prefix struct {
+	Seed uint64 `json:"seed"`
+	From int    `json:"from"`
+	N    int    `json:"n"`
+	Tier string `json:"tier"`
+}
+
 type ReplayFile struct {
 	Property  string     `json:"property"`
 	World     *World     `json:"world"`
 	Expect    *Violation `json:"expect"`
 	Minimised bool       `json:"minimised"`
 	Note      string     `json:"note,omitempty"`
+	Prefix    *Prefix    `json:"prefix,omitempty"`
 }
 
 func loadReplay(path string) *ReplayFile {
@@ -294,6 +304,12 @@ func doReplay(path string) int {
 	impl := props[rf.World.Prop]
 	if impl == nil {
 		fatal(2, "unknown property %q", rf.World.Prop)
+	}
+	if p := rf.Prefix; p != nil {
+		for i := p.From; i < p.From+p.N; i++ {
+			fmt.Fprintf(os.Stderr, "BEGIN %d\n", i)
+			impl.Exec(genWorld(impl, p.Seed, i, p.Tier), NewStats())
+		}
 	}
 	fmt.Fprintf(os.Stderr, "BEGIN %d\n", rf.World.Idx)
 	v, _ := impl.Exec(rf.World, NewStats())
